@@ -942,7 +942,11 @@ func (g *gen) writeBuiltinSlice(b *buffer, recv *a.Expr, method t.ID, args []*a.
 		return g.writeArgs(b, args, depth)
 
 	case t.IDCopyFromSlice:
-		if err := g.writeBuiltinSliceCopyFromSlice8(b, recv, method, args, depth); err != errOptimizationNotApplicable {
+		// The memcpy form yields a pointer, not the number of elements copied,
+		// so it can only replace a call whose result is unused.
+		if !sideEffectsOnly {
+			// No-op.
+		} else if err := g.writeBuiltinSliceCopyFromSlice8(b, recv, method, args, depth); err != errOptimizationNotApplicable {
 			return err
 		}
 
